@@ -10,7 +10,9 @@ META = ("other",
         "C02.R1 SqlWriter has exactly the impls String and SqlWriterValues and String::push_param is "
         "push_str(&query_builder.value_to_string(&value)) on its own parameters; R2 callee census on every value of type "
         "dyn SqlWriter (only write_fmt/write_str/write_char/push_param/as_writer, to_string only in build_collect*; no Any/"
-        "downcast); R3 sibling agreement of the entry points of the 5 statement types and of the #[inherent] forwards; "
+        "downcast); R3 sibling agreement of the entry points of the 5 statement types (each interpreted on opaque self / backend / "
+        "writer, forwarding between siblings followed: the backend's renderer is reached exactly once with exactly those) and "
+        "of the #[inherent] forwards; "
         "R4 renderers take statements by shared reference, every statement-reachable type is Freeze, no clock/random/env/"
         "hash-order source in the crate's renderers; R5 every push_param call hands over the rendering backend itself (self) as "
         "the builder of the inline literal and sits in a prepare_value impl",
